@@ -271,7 +271,7 @@ func init() {
 		}
 		w := &strings.Builder{}
 		fmt.Fprintf(w, "(* GENERATED by harness gen-ngapschema from /repo/src/free5gclib/ngap/ngapType (reflect). Do not edit. *)\n")
-		fmt.Fprintf(w, "From Coq Require Import ZArith NArith List String.\nRequire Import AperCommon.\nImport ListNotations.\nOpen Scope string_scope.\n\n")
+		fmt.Fprintf(w, "From Coq Require Import ZArith NArith List String.\nRequire Import AperCommon.\nImport ListNotations.\nLocal Open Scope string_scope.\n\n")
 		// shared parameter records
 		pidx := map[string]int{}
 		var plist []string
